@@ -388,6 +388,7 @@ theorem names_enc_after_set (kvs : List (String × Json)) (hu hp : Option String
     is only a shared header, into that) before the protected header is encoded. -/
 theorem jwe_enc_applied_is_recorded (jwe cek : Json) (a : AlgRec) (j : Json)
     (h : encCekSetup jwe cek = some (a, j))
+    (hps : ∀ t, jwe.get? "protected" ≠ some (.str t))      -- protected header still an object (or absent); the encoded case: correspondence
     (hload : ∀ j0 p, encodeProtected j0 = some j → j0.get? "protected" = some (.obj p) → LoadDump p) :
     NamesEnc j a.name ∧ findEncr a.name = some a := by
   cases jwe with
@@ -398,7 +399,15 @@ theorem jwe_enc_applied_is_recorded (jwe cek : Json) (a : AlgRec) (j : Json)
       simp only [Option.bind_eq_some_iff] at h
       obtain ⟨⟨a0, j0⟩, hr, hrest⟩ := h
       have hsu' : subEnc kvs "unprotected" = some hu := hsu
-      have hsp' : subEnc kvs "protected" = some hp := hsp
+      have hsp' : subEnc kvs "protected" = some hp := by
+        simp only [subEnc]
+        cases hpl : lookup "protected" kvs with
+        | none => simpa [hpl] using hsp
+        | some pv =>
+          cases pv with
+          | str t => exact absurd (by simp [Json.get?, hpl]) (hps t)
+          | obj o => simpa [hpl] using hsp
+          | _ => simp [hpl] at hsp
       split at hrest
       · simp at hrest
       · simp only [Option.map_eq_some_iff, Prod.mk.injEq] at hrest
@@ -454,9 +463,10 @@ theorem jws_applied_is_recorded_plain (P : Prims) (s jwk : Json) (pay rnd : Bs) 
 
 theorem jwe_enc_applied_is_recorded_plain (jwe cek : Json) (a : AlgRec) (j : Json)
     (h : encCekSetup jwe cek = some (a, j))
+    (hps : ∀ t, jwe.get? "protected" ≠ some (.str t))
     (hplain : ∀ j0 p, encodeProtected j0 = some j → j0.get? "protected" = some (.obj p) → Json.Plain (.obj p)) :
     NamesEnc j a.name ∧ findEncr a.name = some a :=
-  jwe_enc_applied_is_recorded jwe cek a j h (fun j0 p h1 h2 => loadDump_of_plain p (hplain j0 p h1 h2))
+  jwe_enc_applied_is_recorded jwe cek a j h hps (fun j0 p h1 h2 => loadDump_of_plain p (hplain j0 p h1 h2))
 
 /-- non-vacuity -/
 example : jwsHdr (.obj [("protected", .obj [("alg", .str "P")]), ("header", .obj [("alg", .str "H"), ("kid", .int 1)])])
